@@ -363,6 +363,8 @@ pub struct Spec {
     pub as_let: bool,
     /// None: apply to every value in one program; Some(i): only value i
     pub only_value: Option<usize>,
+    /// the scrutinee is first bound to a variable, which is then matched twice with the same matrix
+    pub twice: bool,
 }
 
 pub fn build(spec: &Spec, depth: u32) -> Program {
@@ -402,7 +404,28 @@ pub fn build(spec: &Spec, depth: u32) -> Program {
         if spec.catch_all {
             arms.push(arm(spec.rows.len(), &Pat::Wild, &mut n));
         }
-        E::Match(Box::new(call("scr", vec![v(arg)])), arms)
+        if spec.twice {
+            // the same variable is the scrutinee of two matches
+            let held = n.fresh("held");
+            let mut arms2 = Vec::new();
+            for (i, r) in spec.rows.iter().enumerate() {
+                arms2.push(arm(i + 20, &pats[*r], &mut n));
+            }
+            if spec.catch_all {
+                arms2.push(arm(spec.rows.len() + 20, &Pat::Wild, &mut n));
+            }
+            if spec.int_result {
+                let (r1, r2) = (n.fresh("r"), n.fresh("r"));
+                block(
+                    vec![let_(held, call("scr", vec![v(arg)])), let_(r1, E::Match(Box::new(v(held)), arms)), let_(r2, E::Match(Box::new(v(held)), arms2))],
+                    Some(add(v(r1), v(r2))),
+                )
+            } else {
+                block(vec![let_(held, call("scr", vec![v(arg)])), st(E::Match(Box::new(v(held)), arms)), st(E::Match(Box::new(v(held)), arms2))], None)
+            }
+        } else {
+            E::Match(Box::new(call("scr", vec![v(arg)])), arms)
+        }
     };
     items.push(fn_def("m", vec![(arg, ty_of(&pt))], Some(res_ty), body));
     let mut main = Vec::new();
@@ -459,7 +482,7 @@ fn specs(tier: Tier) -> Vec<Spec> {
         let np = patterns(&pt, depth_for(ty)).len();
         // destructuring let: every pattern
         for r in 0..np {
-            out.push(Spec { ty: ty.into(), rows: vec![r], catch_all: false, int_result: false, as_let: true, only_value: None });
+            out.push(Spec { ty: ty.into(), rows: vec![r], catch_all: false, int_result: false, as_let: true, only_value: None, twice: false });
         }
         // rows: quick <= 3 for types with <= 12 patterns, else 2; thorough <= 4 / <= 3 (<= 30 patterns) / 2
         let maxr = match (tier == Tier::Quick, np) {
@@ -477,7 +500,10 @@ fn specs(tier: Tier) -> Vec<Spec> {
                         if tier == Tier::Quick && int_result && (np > 12 || rcount == 3) {
                             continue;
                         }
-                        out.push(Spec { ty: ty.into(), rows: idx.clone(), catch_all, int_result, as_let: false, only_value: None });
+                        out.push(Spec { ty: ty.into(), rows: idx.clone(), catch_all, int_result, as_let: false, only_value: None, twice: false });
+                        if rcount <= 2 && np <= 30 && !(tier == Tier::Quick && rcount == 2 && np > 12) {
+                            out.push(Spec { ty: ty.into(), rows: idx.clone(), catch_all, int_result, as_let: false, only_value: None, twice: true });
+                        }
                     }
                 }
                 let mut k = rcount;
@@ -513,7 +539,7 @@ fn specs(tier: Tier) -> Vec<Spec> {
             let n = sel.len();
             for code in 0..n.pow(4) {
                 let rows = vec![sel[code / (n * n * n)], sel[(code / (n * n)) % n], sel[(code / n) % n], sel[code % n]];
-                out.push(Spec { ty: ty.into(), rows, catch_all: true, int_result: false, as_let: false, only_value: None });
+                out.push(Spec { ty: ty.into(), rows, catch_all: true, int_result: false, as_let: false, only_value: None, twice: false });
             }
         }
     }
@@ -528,7 +554,7 @@ impl Family for Patterns {
         &["C06", "C01", "C02", "C04"]
     }
     fn rule(&self) -> &'static str {
-        "scrutinee types {bool,int32,uint8,string,(bool,bool),(bool,int32),E,Opt[bool],S,(E2,E2),(int32,int32),(string,int32),(int32,string),(int32,int32,int32)}; all patterns (wildcard, variable, 2 literals, constructor/tuple/struct with sub-patterns; depth 2 for S and (E2,E2); columns of all-literal-typed tuples use {_, lit0, lit1}); all matrices of <= 3 rows for types with <= 12 patterns, else <= 2 rows, plus the 4-row matrices of (int32,int32) over the 8 tuple patterns with a literal, with a catch-all (quick) / <= 4 rows for <= 12 patterns, <= 3 rows for <= 30 patterns, else 2 (thorough), with and without a trailing catch-all, results unit and int32; every destructuring let; each matrix applied to every value of the type (one program per value when some value matches no row); the scrutinee is an effect probe; each arm prints its index and every variable it binds. non-trivial = matrices where a row other than the first is selected for some value, or some value matches no row; distinct = distinct source text"
+        "scrutinee types {bool,int32,uint8,string,(bool,bool),(bool,int32),E,Opt[bool],S,(E2,E2),(int32,int32),(string,int32),(int32,string),(int32,int32,int32)}; all patterns (wildcard, variable, 2 literals, constructor/tuple/struct with sub-patterns; depth 2 for S and (E2,E2); columns of all-literal-typed tuples use {_, lit0, lit1}); all matrices of <= 3 rows for types with <= 12 patterns, else <= 2 rows, plus the 4-row matrices of (int32,int32) over the 8 tuple patterns with a literal, with a catch-all (quick) / <= 4 rows for <= 12 patterns, <= 3 rows for <= 30 patterns, else 2 (thorough), with and without a trailing catch-all, results unit and int32; every destructuring let; matrices of <= 2 rows also with the scrutinee held in a variable that is matched twice; each matrix applied to every value of the type (one program per value when some value matches no row); the scrutinee is an effect probe; each arm prints its index and every variable it binds. non-trivial = matrices where a row other than the first is selected for some value, or some value matches no row; distinct = distinct source text"
     }
     fn cases(&self, tier: Tier) -> Box<dyn Iterator<Item = Value> + '_> {
         let n = specs(tier).len();
@@ -565,19 +591,20 @@ impl Family for Patterns {
             let kinds: Vec<&str> = spec.rows.iter().map(|r| pat_kind(&pats[*r])).collect();
             let lit = spec.rows.iter().any(|r| has_lit(&pats[*r]));
             let site = format!(
-                "ty={};rows={};kinds={};catchall={};result={};form={};lit={}",
+                "ty={};rows={};kinds={};catchall={};result={};form={};lit={}{}",
                 spec.ty,
                 spec.rows.len(),
                 kinds.join("+"),
                 spec.catch_all,
                 if spec.int_result { "int32" } else { "unit" },
                 if spec.as_let { "let" } else { "match" },
-                lit
+                lit,
+                if spec.twice { ";twice" } else { "" }
             );
             for var in variants {
                 count += 1;
                 let prog = build(&var, depth);
-                let subcase = json!({"spec_index": lo + si, "ty": var.ty, "rows": var.rows, "catch_all": var.catch_all, "int_result": var.int_result, "as_let": var.as_let, "only_value": var.only_value});
+                let subcase = json!({"spec_index": lo + si, "ty": var.ty, "rows": var.rows, "catch_all": var.catch_all, "int_result": var.int_result, "as_let": var.as_let, "only_value": var.only_value, "twice": var.twice});
                 let opts = DiffOpts {
                     props_sem: &["C06", "C01"],
                     props_reject: &["C06"],
